@@ -330,13 +330,35 @@ static uint64_t do_call(uint64_t ci) {
             free(dst);
             break;
         }
-        case 11: { /* dictionary object reuse: Build twice on one object */
+        case 11: { /* dictionary object reuse: Build twice on one object, across index-width classes */
             varintDict *dc = varintDictCreate();
             g_ctx = "varintDictBuild";
+            if ((ci / NKINDS) % 3 == 0) {
+                /* first a dictionary of more than 256 entries, then one of fewer on the same handle */
+                uint64_t *wide = malloc(400 * 8);
+                for (size_t i = 0; i < 400; i++) wide[i] = a[0] + i * 3;
+                varintDictBuild(dc, wide, 400);
+                free(wide);
+            }
             PAINT();
             varintDictBuild(dc, a, n);
             PAINT();
             varintDictBuild(dc, a, n / 2 + 1);
+            {
+                /* the handle's history must not matter: same bytes as a fresh handle built from the same values */
+                size_t m = n / 2 + 1;
+                varintDict *fresh = varintDictCreate();
+                varintDictBuild(fresh, a, m);
+                uint8_t *e1 = dst_alloc(scratch_size(m)), *e2 = dst_alloc(scratch_size(m));
+                size_t b1 = varintDictEncodeWithDict(e1, dc, a, m), b2 = varintDictEncodeWithDict(e2, fresh, a, m);
+                if (b1 != b2 || memcmp(e1, e2, b1) || varintDictEncodedSizeWithDict(dc, m) != varintDictEncodedSizeWithDict(fresh, m)) {
+                    viol("C15:varintDictEncodeWithDict:result-depends-on-handle-history", "call %" PRIu64 ": reused handle wrote %zu bytes, fresh handle %zu bytes for the same %zu values", ci, b1, b2, m);
+                }
+                digest_bytes(&d, e1, b1);
+                free(e1);
+                free(e2);
+                varintDictFree(fresh);
+            }
             digest_u64(&d, dc->size); digest_u64(&d, dc->indexWidth);
             CHECK_INIT(dc->values, dc->size * 8);
             digest_bytes(&d, dc->values, dc->size * 8);
